@@ -11,7 +11,8 @@
  *   VERIF_IP_DIR=<prefix>        tracked directory (required for any effect)
  *   VERIF_IP_TRACE=<file>        append one line per tracked call made while armed
  *   VERIF_IP_ARMED=1             armed from process start (otherwise armed by  access("//VERIF_IP_ARM",0)
- *                                and disarmed by access("//VERIF_IP_DISARM",0) issued by the harness)
+ *                                and disarmed by access("//VERIF_IP_DISARM",0) issued by the harness;
+ *                                access("//VERIF_IP_MARK",0) writes an operation-boundary line into the trace)
  *   VERIF_IP_KILL=<k>            exit_group(86) immediately BEFORE the k-th (0-based) armed *mutating* tracked
  *                                call (open with O_CREAT/O_TRUNC, write, pwrite, ftruncate, close, fsync,
  *                                fdatasync, unlink, rename).  Kernel file state is kept, nothing is flushed by us.
@@ -449,6 +450,10 @@ int access(const char *path, int mode)
     if (path && path[0] == '/' && path[1] == '/' && !strncmp(path, "//VERIF_IP_", 11)) {
         if (!strcmp(path, "//VERIF_IP_ARM")) { armed = 1; return 0; }
         if (!strcmp(path, "//VERIF_IP_DISARM")) { armed = 0; return 0; }
+        if (!strcmp(path, "//VERIF_IP_MARK")) {      /* operation boundary: "- - mark <dir> <next fault index> <next mut index> = 0" */
+            if (armed && ip_dir_len) trace(-1, -1, "mark", ip_dir, n_fault, n_mut, 0, 0, 0);
+            return 0;
+        }
     }
     return real_access(path, mode);
 }
